@@ -37,11 +37,12 @@ Definition id_header_ok (c : cfg) (s : step) : bool :=
   | _, _ => true
   end.
 
-Definition mon02 (c : cfg) (db : tokdb) (seen : list string) (s : step) : list string * bool :=
+Definition mon02 (c : cfg) (db : tokdb) (gs : ghost * list string) (s : step) : (ghost * list string) * bool :=
+  let '(g, seen) := gs in
   let seen' := (issued_ids (s_trace s) ++ seen)%list in
-  (seen',
+  ((ghost_step g s, seen'),
    settok_shape c db (s_now s) (s_req s) (s_trace s) &&
    mon_ok_justified c db (s_now s) (s_req s) (s_trace s) (s_resp s) &&
-   forallb (write_ok c db seen') (s_trace s) && id_header_ok c s).
+   forallb (write_ok c db seen') (s_trace s) && id_header_ok c s && reads_bound g (s_trace s)).
 
-Definition run (hs : list hist) : list fail := take 20 (run_hists (list string) [] mon02 0 hs).
+Definition run (hs : list hist) : list fail := take 20 (run_hists (ghost * list string) ([], []) mon02 0 hs).
